@@ -21,6 +21,7 @@ inductive FErr
   | upnpError           -- UpnpError("Unsupported data type")
   | keyError            -- KeyError (argument's related state variable is not declared)
   | raw (e : Err)       -- a builtin exception out of a converter
+  | library             -- some other subclass of UpnpError (seen on the implementation side only)
   | unmodelled
 deriving DecidableEq, Repr
 
@@ -156,6 +157,10 @@ def keyStep {α : Type} (key uniq : α → Str) (acc : PyDict Str α) (x : α) :
 def keyedValues {α : Type} (key uniq : α → Str) (l : List α) : List α :=
   PyDict.values (l.foldl (keyStep key uniq) [])
 
+/-- `.keys()` of that dict -/
+def keyedKeys {α : Type} (key uniq : α → Str) (l : List α) : List Str :=
+  PyDict.keys (l.foldl (keyStep key uniq) [])
+
 /-- `allowed_values` as the factory reads them: the text of every `allowedValue`; an element
     without text is the empty string for the string types and is skipped for the others -/
 def allowedTexts (isStr : Bool) (l : List (Option Str)) : List Str :=
@@ -242,7 +247,8 @@ def completeArg (n d r : Option Str) : Option (Str × Str × Str) :=
 /-- `_parse_action_el`: arguments lacking a name, a direction or a related variable are skipped -/
 def parseArgs (a : Xml) : List (Str × Str × Str) :=
   (a.findall2 .service .argumentList .argument).filterMap fun g =>
-    completeArg (g.findtext .service .name) (g.findtext .service .direction) (g.findtext .service .relatedStateVariable)
+    completeArg (g.findtext .service .name) (g.findtext .service .direction)
+      ((g.findtext .service .relatedStateVariable).map stripWs)
 
 /-- `UpnpAction.Argument(arg_info, svs[arg_info.state_variable_name])` -/
 def bindArg (lookup : Str → Option (VarM F)) (g : Str × Str × Str) : Except FErr ArgM :=
@@ -275,6 +281,19 @@ def joinOpt (base : Str) (o : Option Str) : Option Str :=
   | none => some base
   | some s => urljoin base s
 
+/-- the exceptions `_async_create_service` treats as "incomplete description": `UpnpError` and `KeyError` -/
+def FErr.incomplete : FErr → Bool
+  | .upnpError => true
+  | .xmlContent => true
+  | .keyError => true
+  | _ => false
+
+/-- non-strict: an incomplete description degrades to an empty service -/
+def degrade {α β : Type} (nonStrict : Bool) (r : Except FErr (List α × List β)) : Except FErr (List α × List β) :=
+  match r with
+  | .ok x => .ok x
+  | .error e => if nonStrict && e.incomplete then .ok ([], []) else .error e
+
 /-- state variables and actions of a fetched SCPD (strict: a foreign root / missing state table is
     refused; non-strict: unparsable text counts as an empty `scpd`) -/
 def serviceBody (nonStrict : Bool) (fetched : Fetch) : Except FErr (List (VarM F) × List ActM) :=
@@ -285,11 +304,11 @@ def serviceBody (nonStrict : Bool) (fetched : Fetch) : Except FErr (List (VarM F
   | .error e => .error e
   | .ok scpd =>
     if !nonStrict && !(Xml.isNamed .service .scpd scpd) then .error .xmlContent
-    else match createVars fo tb nonStrict scpd with
+    else degrade nonStrict (match createVars fo tb nonStrict scpd with
       | .error e => .error e
       | .ok vars => match createActions nonStrict vars scpd with
         | .error e => .error e
-        | .ok acts => .ok (dictValues (·.name) vars, dictValues (·.name) acts)
+        | .ok acts => .ok (dictValues (·.name) vars, dictValues (·.name) acts))
 
 /-- `UpnpService(...)`: ids as given, URLs joined to the description URL -/
 def svcOf (base : Str) (serviceId serviceType controlURL eventSubURL scpdURL : Option Str)
